@@ -46,7 +46,7 @@ var propSpecs = map[string]PropSpec{
 		Explanation: "Partial, by contracts on the real code of package io, which is loaded with a mechanical stub of its cgo dependency gonum.org/v1/hdf5 (regenerated from the module source on every run: all declarations and signatures kept; function bodies, C types and C constant values dropped; libhdf5 itself is absent from the sandbox). Decided: (1) selection arithmetic for all selections and extents - sliceSize returns exactly the number of indices start + k*step below min(stop, extent) (lemma C08.lemma-selcount-exact), makeHyperslab returns offset = start, stride = step, block = 1 and that count per selected dimension and the whole extent for nil dimensions; (2) argument wiring of every data-carrying library call - loadSubset selects exactly the hyperslab of makeHyperslab, gives the memory dataspace and the result array the shape count[.] (loop invariant over the shape rewrite), reads memory space against file selection; WriteSlice selects offset loc, stride 1, count 1, block = shape of the data and a memory space of that shape; Write creates or opens the dataset with the data's shape; createDataset creates the dataspace with the requested shape; (3) lock typestate - ghost variable hdf5lock (0 free, 1 shared, 2 exclusive): every call into gonum hdf5 on every path, including deferred Close calls, happens with the lock held, calls that create or write objects in a file (CreateFile, CreateGroup, CreateDataset*, Write, WriteSubset) with the lock held exclusively, and every exported method releases it on every return path. Not decided: anything libhdf5 does with those arguments (round trip of values, element types, that an existing dataset is left untouched), which is exactly what cannot be run or replayed here.",
 		NotCovered: []string{"behaviour of libhdf5 / gonum hdf5 (round-trip of values and element types, dataset creation semantics): the library is absent; its calls are external (A-EXTERNAL, A-HDF5: a call that reports no error returns non-nil handles)", "what libhdf5 reports as the shape of an existing dataset (shapesMatch relies on the library; on the exits of openOrCreateDataset it is proved that an existing dataset with a matching shape is returned without any create or write call, and that a mismatch returns an error without any create or write call)", "error handling and nil handles (openWriteOrCreate can return a nil file without an error when the file exists but cannot be opened)", "the bodies of the four lock wrappers (trusted: sync.RWMutex)", "replay: package io cannot be built or run here; witnesses run on the two pure helpers extracted verbatim (tools/run_witness_io.sh)"}},
 	"C10": {ID: "C10", Level: "proof", Patterns: modelPkgs,
-		NotCovered: []string{"Sacramento: store bounds, and the composition of the proved segment and increment conservation identities into a whole-run water balance (unit-hydrograph buffer, losses ssout/sarva/side and the ADIMP area are not tied together)", "GR4J: non-negativity of the unit-hydrograph buffers (the exact daily balance is proved for days whose routed ordinates are non-negative; that the buffers never go negative needs monotonicity of the S-curves, i.e. of pow, which is uninterpreted)"}},
+		NotCovered: []string{"Sacramento: store bounds other than the per-increment capacity of the two lower-zone free-water stores, and the composition of the proved segment and increment conservation identities into a whole-run water balance (unit-hydrograph buffer, losses ssout/sarva/side and the ADIMP area are not tied together)", "GR4J: non-negativity of the unit-hydrograph buffers (the exact daily balance is proved for days whose routed ordinates are non-negative; that the buffers never go negative needs monotonicity of the S-curves, i.e. of pow, which is uninterpreted)"}},
 	"C11": {ID: "C11", Level: "proof", Patterns: modelPkgs,
 		NotCovered: []string{"storage routing with bias != 0 or routing power != 1 (sub-step iteration)", "storage-discharge relation within the solver tolerance on the root-finder exit of calcOutflow (FindRoot may stop unconverged after maxIterations; the relation residual is then whatever the last trial gave)"}},
 	"C12": {ID: "C12", Level: "proof", Patterns: modelPkgs},
